@@ -1,4 +1,6 @@
 import I18n.Lemmas.CFmtRuns
+import I18n.Model.CFmtRe
+import I18n.Generated.CFmtRe
 import I18n.Lemmas.CFmtStar
 import I18n.Lemmas.CFmtWitness
 /-!
@@ -24,10 +26,14 @@ set_option maxRecDepth 100000
 
 /-! ## Pins: what was probed from the live module is what `Spec.Printf` says -/
 
-/-- the scanner was written against this regex text (and flags) -/
+/-- what the parse tree of `_directive_re` cannot carry (the tree itself is tied in the kernel: `Props.C11Tie.directive_regex`
+    proves the scanner equal to the first match of the live tree, so the TEXT of the pattern is no longer pinned): no flag that
+    changes how a tree matches (IGNORECASE, LOCALE, MULTILINE, DOTALL) is set on `_directive_re` or on the pattern of
+    `_printable_prefix` — VERBOSE only changes parsing, ASCII/UNICODE only the categories, which the translator expands —, and
+    the group names `FormatString`/`Conversion` use are the group numbers the theorems speak about -/
 theorem regex_pin :
-    CFormatTables.directiveRe = CFmt.pinnedDirectiveRe ∧ CFormatTables.directiveReFlags = CFmt.pinnedDirectiveReFlags :=
-  ⟨rfl, rfl⟩
+    CFmtRe.semanticFlags = 0 ∧ CFmtRe.printablePrefixSemanticFlags = 0 ∧ CFmtRe.groups = CFmt.expectedGroups ∧ CFmtRe.ngroups = 14 := by
+  decide
 
 /-- **The probed tables are printf's.**  For every (length, conversion) the type / `LengthError`, integer-ness and
     portability warning; every inttypes macro; every (flag, conversion), (width kind, conversion),
